@@ -171,15 +171,32 @@ def infoObs (cs : List (Key × Nat)) (packs : List IndexPack) : String :=
 steps: `b<k>` backup of source version k, `f<i>` forget the i-th live snapshot (mod count), `p…` prune,
 `s` a second handle reads the repository, `a<k>` that handle finishes a backup (ill-formed without a preceding `s`),
 `h<k>` a backup uploads its packs (index + snapshot held back; ill-formed while another one is open), `e` it finishes
-(ill-formed without `h`). -/
+(ill-formed without `h`); `q…`/`Q…` prune with a fault sweep on copies of the store, `z<spec>/<i>` prune interrupted while it
+removes old index files (`i` a number), `o<m>` serving order of index files (m ∈ {0,1,2}), `g<c>` fixed-size chunker
+(first step only, c > 0), `l<k>,<n>` backup of version k plus a large file of n records: none of them changes the set of
+snapshots except `l` (one more). -/
 structure HistSt where
   live : Nat := 0
   forgotten : Nat := 0
   stale : Bool := false
   half : Bool := false
+  /-- number of steps done -/
+  n : Nat := 0
+
+def natArg (cs : List Char) : Option Nat := (String.ofList cs).toNat?
 
 def histObs (steps : List String) : String :=
-  let r := steps.foldl (fun (st : Option HistSt) s => st.bind fun st => match s.toList with
+  let r := steps.foldl (fun (st : Option HistSt) s => st.bind fun st => (fun (x : Option HistSt) => x.map fun x => { x with n := x.n + 1 }) <| match s.toList with
+    | 'g' :: c => if st.n == 0 && (natArg c).any (· > 0) then some st else none
+    | 'l' :: a => match (String.ofList a).splitOn "," with
+      | [k, n] => if k.toNat?.isSome && (n.toNat?.any (· ≤ 1000000)) then some { st with live := st.live + 1 } else none
+      | _ => none
+    | 'q' :: _ => some st
+    | 'Q' :: _ => some st
+    | 'z' :: a => match (String.ofList a).splitOn "/" with
+      | [_, i] => if i.toNat?.isSome && st.live > 0 then some st else none
+      | _ => none
+    | ['o', m] => if m == '0' || m == '1' || m == '2' then some st else none
     | 'b' :: _ => some { st with live := st.live + 1 }
     | 'x' :: _ => some { st with live := st.live + 1 }
     | 'c' :: _ => some { st with live := st.live + 2 }
